@@ -23,7 +23,11 @@ func findCommitsToRemove(db objects.Store, rs ref.Store, pbarAdd func()) (commit
 		return
 	}
 	for _, sum := range refMap {
-		q.Insert(sum)
+		// a ref whose commit is absent roots nothing; any other error means the commit could not
+		// be read: going on would take it, and everything only it reaches, for garbage
+		if err := q.Insert(sum); err != nil && !errors.Is(err, objects.ErrKeyNotFound) {
+			return nil, nil, err
+		}
 	}
 	commitKeys, err := objects.GetAllCommitKeys(db)
 	if err != nil {
